@@ -532,6 +532,19 @@ func GenC05(seed, run uint64, ok CompileOK) *Scenario {
 	if compileStorm {
 		s.Cfg.NS = r.Chance(1, 2)
 		s.Cfg.NSRebind = s.Cfg.NS && r.Chance(1, 2)
+		if s.Cfg.NS {
+			// namespaces must matter in such a run: the first document gets elements
+			// in both namespaces and some expressions are plain prefixed name tests
+			top := s.Docs[0].C[len(s.Docs[0].C)-1]
+			top.C = append(top.C, &NodeSpec{K: "e", N: "x:a", NS: "urn:x", A: [][2]string{{"id", "1"}}}, &NodeSpec{K: "e", N: "y:b", NS: "urn:y"},
+				&NodeSpec{K: "e", N: "x:a", NS: "urn:y"})
+			for k := r.Range(1, 2); k > 0; k-- {
+				t := r.Pick([]string{"//x:a", "//y:b", "count(//x:a)", "//x:a/@id", "//*[self::x:a]", "//x:a | //y:b"})
+				if ok == nil || ok(t) {
+					s.Exprs = append(s.Exprs, ExprSpec{Text: t})
+				}
+			}
+		}
 	}
 	nt := r.Range(2, 4)
 	// tasks collide on purpose: a "hot" (expression, document, context) that
